@@ -189,7 +189,7 @@ def cfg(pid, tier):
         if q:
             slices = [
                 sl("sessions", 900, Subs=S("1", "2"), MaxSess=3, MaxSteps=4, CreateConts=S(0, 2), Modes=S("on", "off"),
-                   TrigSets=S("none", "partial"), **base),
+                   TrigSets=S("none", "partial", "rare"), **base),
                 sl("split", 900, MaxSess=2, MaxSteps=5, CreateConts=S(0), Modes=S("on", "off"), Limit=4, Pads=S(0, 2),
                    TrigSets=S("none", "partial", "final"), **base),
                 sl("two-rg", 300, RGs=S("1", "2"), TwoEntries=True, MaxSess=2, MaxSteps=3, Modes=S("on", "off"), Limit=6,
@@ -202,7 +202,7 @@ def cfg(pid, tier):
         else:
             slices = [
                 sl("sessions", 10000, Subs=S("1", "2"), MaxSess=3, MaxSteps=5, CreateConts=S(0, 2), Modes=S("on", "off"),
-                   TrigSets=S("none", "partial"), **base),
+                   TrigSets=S("none", "partial", "rare"), **base),
                 sl("split", 10000, MaxSess=2, MaxSteps=5, CreateConts=S(0, 2), Modes=S("on", "off"), Limit=5, Pads=S(0, 2),
                    TrigSets=S("none", "partial", "final"), **base),
                 sl("two-rg", 4000, RGs=S("1", "2"), TwoEntries=True, MaxSess=2, MaxSteps=4, Modes=S("on", "off"), Limit=6,
